@@ -397,7 +397,7 @@ class RadiDict:
                 else:
                     c0 = route[i]
                     for ic, c in enumerate(idx):
-                        if c == c0:
+                        if c == c0 and c != TOKEN:  # a token char in the path is plain text
                             kidx = ic; break  # found!
 
                 if kidx is None:  # not found
